@@ -492,7 +492,7 @@ func ruleP17ErrAbort(p *Prog, r *Report) {
 			r.ok(rule, key, p.instrPos(c), "the error branch ends in returns that report an error")
 		})
 	}
-	if n < 6 {
+	if n < 4 {
 		r.undecided(rule, "floor", "-", "only %d checked time computations found", n)
 	}
 }
